@@ -64,7 +64,12 @@ Acyclic(K) == \A n \in DOMAIN K : ~ReachesSelf(K, n, Len(K) + 1)   \* no downwar
 
 ----------------------------------------------------------------------------
 (* edits on the child lists: each returns the new K (or a record with the result) *)
-AddChildK(K, p, c, i)    == [K EXCEPT ![p] = IF i = NOIDX THEN Append(@, c) ELSE InsAt0(@, i, c)]
+(* list.insert positions as Python has them: NOIDX (-1 here) = append; i >= 0 clamps at the end; a NEGATIVE Python index j is
+   logged as i = j - 1 (so -2 is Python's -1) and counts from the end, clamping at the front *)
+PyPos(len, i) == IF i = NOIDX THEN len
+                 ELSE IF i <= -2 THEN (IF len + i + 1 < 0 THEN 0 ELSE len + i + 1)
+                 ELSE IF i > len THEN len ELSE i
+AddChildK(K, p, c, i)    == [K EXCEPT ![p] = InsAt0(@, PyPos(Len(@), i), c)]
 RemoveChildK(K, p, c)    == [K EXCEPT ![p] = DelAt(@, Pos(@, c))]
 RemoveChildrenK(K, p)    == [K EXCEPT ![p] = <<>>]
 ReplaceChildK(K, p, o, n) == [K EXCEPT ![p] = [@ EXCEPT ![Pos(@, o)] = n]]
